@@ -43,7 +43,7 @@ def warmup():
 
 
 def cases(tier, seed):
-    sp = tsspace.single_trees(5 if tier == "quick" else 6, renumber=("reverse",))
+    sp = tsspace.single_trees(5 if tier == "quick" else 6, renumber=("reverse", "rotate"))
     out = []
     combos = [(g, p) for g in GRIDS for p in ("lognorm", "gamma", "zeros")]
     for a in sp.args:
